@@ -25,6 +25,77 @@ Theorem C10_transfer_from_bounded : forall k st caller value v from to sh s s',
 Proof. exact transfer_from_bounded. Qed.
 Print Assumptions C10_transfer_from_bounded.
 
+(* ---- the same over HISTORIES: the invariant is preserved by every precompile call, so the statements hold in every
+   state reachable by any sequence of calls (a failed call leaves the state as it was: property C09) ---- *)
+Theorem C10_invariant_preserved : forall h s, wf_state s -> values_ok h -> wf_state (run_hist h s).
+Proof. exact hist_wf. Qed.
+Print Assumptions C10_invariant_preserved.
+
+Theorem C10_hist_only_caller_pays : forall h1 x h2 s0,
+  wf_state s0 -> values_ok (h1 ++ x :: h2) ->
+  tp_ok (h_caller x) (h_call x) (run_hist h1 s0) (do_step (run_hist h1 s0) x).
+Proof. exact hist_only_caller_pays. Qed.
+Print Assumptions C10_hist_only_caller_pays.
+
+(* an account that never calls and never granted a share allowance loses nothing over any history: balance,
+   delegations, unbonding, ERC-20 balance and allowance, pool entries *)
+Theorem C10_hist_bystander : forall h s0 a,
+  wf_state s0 -> values_ok h -> never_calls a h -> (forall v sp, alw s0 v a sp = 0) ->
+  let s := run_hist h s0 in
+  bal s0 a <= bal s a /\ (forall v, dlg s0 a v <= dlg s a v) /\ (forall v, unb s0 a v <= unb s a v) /\
+  tok s0 a <= tok s a /\ tka s a = tka s0 a /\ (forall v sp, alw s v a sp = 0) /\
+  (forall id amt fee tk, pool s0 id = Some (a, amt, fee, tk) -> exists fee', pool s id = Some (a, amt, fee', tk) /\ fee <= fee').
+Proof. exact hist_bystander. Qed.
+Print Assumptions C10_hist_bystander.
+
+(* whatever the spenders do, in any order and number of calls: what leaves a delegation is bounded by the allowances
+   its owner had granted them *)
+Theorem C10_hist_allowance_bound : forall h s0 a v L,
+  wf_state s0 -> values_ok h -> never_calls a h -> NoDup L -> Forall (fun x => In (h_caller x) L) h ->
+  dlg s0 a v - salw s0 v a L <= dlg (run_hist h s0) a v.
+Proof. exact hist_allowance_bound. Qed.
+Print Assumptions C10_hist_allowance_bound.
+
+(* calls that reach the precompiles through STATICCALL / DELEGATECALL / CALLCODE change nothing, over any history *)
+Theorem C10_hist_readonly_context : forall h s, Forall (fun x => h_kind x <> CALL) h -> run_hist h s = s.
+Proof. exact hist_readonly_context. Qed.
+Print Assumptions C10_hist_readonly_context.
+
+(* "redirected": no precompile call ever changes a reward withdraw address *)
+Theorem C10_hist_withdraw_address : forall h s, wdr (run_hist h s) = wdr s.
+Proof. exact hist_withdraw_address. Qed.
+Print Assumptions C10_hist_withdraw_address.
+
+(* ERC-20 paths (crossChain, increaseBridgeFee: transferFrom by the precompile; bridgeCall: ConvertERC20 of the holder):
+   only the direct caller's tokens move, only the direct caller's allowance is consumed *)
+Theorem C10_tokens_only_callers : forall k st caller value c s s',
+  0 <= value -> wf_state s -> entry k st caller value c s = Some (Ok s') ->
+  forall a, a <> caller -> tok s a <= tok s' a /\ tka s' a = tka s a.
+Proof. exact tokens_only_callers. Qed.
+Print Assumptions C10_tokens_only_callers.
+
+(* executeClaim: the outcome does not depend on who submits it (the claim carries the oracle quorum's authority), and
+   without a pending claim nothing happens *)
+Theorem C10_execute_claim_authority : forall c1 c2 v1 v2 n s,
+  method_run c1 v1 (CExecuteClaim n) s = method_run c2 v2 (CExecuteClaim n) s.
+Proof. exact execute_claim_authority. Qed.
+Print Assumptions C10_execute_claim_authority.
+
+Theorem C10_execute_claim_needs_pending : forall k st caller value n s,
+  claims s n = None -> entry k st caller value (CExecuteClaim n) s <> None ->
+  entry k st caller value (CExecuteClaim n) s = Some Err.
+Proof. exact execute_claim_needs_pending. Qed.
+Print Assumptions C10_execute_claim_needs_pending.
+
+Theorem C10_history_nonvacuous :
+  wf_state ex_state /\
+  let s := run_hist ex_hist ex_state in
+  dlg s 1 0 = 70 /\ alw s 0 1 0 = 0 /\ dlg s 0 0 = 10 /\ dlg s 3 0 = 20 /\ dlg s 2 0 = 0 /\
+  tok s 0 = 400 /\ tok s 1 = 500 /\ bal s 2 = 1090 /\ bcalls s 1 = None /\ claims s 7 = None /\ claims s 8 = None /\
+  bcalls s 2 = Some (0, 1, 0, 100).
+Proof. exact (conj ex_state_wf history_nonvacuous). Qed.
+Print Assumptions C10_history_nonvacuous.
+
 (* a method the generated table declares state-changing fails through STATICCALL, DELEGATECALL and CALLCODE *)
 Theorem C10_readonly_guard : forall k st caller value c s m,
   k <> CALL -> find_method methods c = Some m -> pm_readonly m = false ->
